@@ -109,18 +109,7 @@ func c04Exec(w *World, fn *ssa.Function, family map[string]*ssa.Function, nilPar
 			return ex.freshResults(f.Signature, "dec:"+g), true
 		}
 	}
-	// list operations proved on their own (C13, C19): used by contract (no panic, receiver updated)
-	for _, g := range []string{"(*ItemCollection).Append", "(*IRIs).Append", "(*NaturalLanguageValues).Append", "(*OrderedCollection).Append", "(*Collection).Append", "(*CollectionPage).Append", "(*OrderedCollectionPage).Append"} {
-		g := g
-		ex.hooks[g] = func(ex *Exec, st *State, f *ssa.Function, a []Value) (Value, bool) {
-			if p, ok := a[0].(*PtrVal); ok {
-				elem := f.Params[0].Type().Underlying().(*types.Pointer).Elem()
-				ex.objSeq++
-				ex.store(st, p, ex.symValue(elem, varNamer(fmt.Sprintf("appended!%d", ex.objSeq)), false), f.Pos())
-			}
-			return ex.freshResults(f.Signature, "app:"+g), true
-		}
-	}
+	installAppendContracts(ex)
 	st := newState()
 	var args []Value
 	for i, p := range fn.Params {
@@ -372,4 +361,19 @@ func TestVerifReplay(t *testing.T) {
 	}
 }
 `
+}
+
+// installAppendContracts: list operations proved on their own (C13, C19) are used by contract (no panic, receiver updated).
+func installAppendContracts(ex *Exec) {
+	for _, g := range []string{"(*ItemCollection).Append", "(*IRIs).Append", "(*NaturalLanguageValues).Append", "(*OrderedCollection).Append", "(*Collection).Append", "(*CollectionPage).Append", "(*OrderedCollectionPage).Append"} {
+		g := g
+		ex.hooks[g] = func(ex *Exec, st *State, f *ssa.Function, a []Value) (Value, bool) {
+			if p, ok := a[0].(*PtrVal); ok {
+				elem := f.Params[0].Type().Underlying().(*types.Pointer).Elem()
+				ex.objSeq++
+				ex.store(st, p, ex.symValue(elem, varNamer(fmt.Sprintf("appended!%d", ex.objSeq)), false), f.Pos())
+			}
+			return ex.freshResults(f.Signature, "app:"+g), true
+		}
+	}
 }
